@@ -48,6 +48,8 @@ def run_corr(ctx, ncases, tag, workers=8):
         for v in s["violations"]:
             v["worker_seed"] = ctx.seed * 1000 + k
             summ["violations"].append(v)
+        summ.setdefault("transient_not_reproduced", [])
+        summ["transient_not_reproduced"] += s.get("transient_not_reproduced", [])
         if len(summ.setdefault("samples", [])) < 2:
             summ["samples"] += s.get("samples", [])[:1]
         for name, o in s.get("oracles", {}).items():
@@ -120,7 +122,8 @@ def check(ctx, pid, theorems, props_module, nquick=144, nthorough=2400, extra_mo
              "PairParticleScalar/Vector sums + particle caches with polynomial expressions, different cutoffs sharing one list, lambda in {0,1/4,1/2,3/4,1}, "
              "IntegratorVelocityVerlet + IntegratorScalar/Vector, dyadic data; every field of every particle after every step compared EXACTLY with the Lean "
              "model while inside the exact horizon; a scenario counts when it ran without reflector hits; distinct by construction (one PRNG stream per worker)",
-        histogram=dict(summ.get("histogram", {}), oracles=summ["oracles"], disagreements_attributed_to_other_properties=len(others)),
+        histogram=dict(summ.get("histogram", {}), oracles=summ["oracles"], disagreements_attributed_to_other_properties=len(others),
+                       transient_differences_not_reproduced=summ.get("transient_not_reproduced", [])[:5]),
         samples=(summ.get("samples") or [dict(modules=summ.get("histogram", {}).get("modules"))])))
     if not all(o[1] for o in ctx.obligations):
         failing = [o[0] for o in ctx.obligations if not o[1]]
